@@ -24,7 +24,7 @@ def run(prop, tier, seed, t0):
     # TSan stress with seeded delays (real threads): race reports are violations
     nt = (300, 40) if thorough else (30, 12)
     env = {'TSAN_OPTIONS': 'halt_on_error=1:abort_on_error=1:second_deadlock_stack=1:report_signal_unsafe=0:report_thread_leaks=0'}
-    R.run_sharded(res, exes[2], ['nsched=%d' % nt[1]], nt[0] * nt[1], env=env, label='h_c12/tsan', variant='tsan', first=20_000_000)
+    R.run_sharded(res, exes[2], ['nsched=%d' % nt[1]], nt[0] * nt[1], env=env, label='h_c12/tsan', variant='tsan', first=20_000_000, wall=240 if thorough else 90)
     cov = {
         'evaluations': res.stat('schedules'),
         'distinct_nontrivial': res.stat('distinct_schedules'),
